@@ -74,6 +74,7 @@ func fetch(
 	fetcher := options.getFetcher(exchg)
 	cids := make([]cid.Cid, 0, len(blks))
 	duplicates := make(map[cid.Cid]Block)
+	registered := make(map[cid.Cid]*unmarshalEntry)
 	for _, blk := range blks {
 		cid := blk.CID() // memoize CID for reuse as it ain't free
 		cids = append(cids, cid)
@@ -81,7 +82,8 @@ func fetch(
 		// store the UnmarshalFn s.t. hasher can access it
 		// and fill in the Block
 		unmarshalFn := blk.UnmarshalFn(root)
-		_, exists := unmarshalFns.LoadOrStore(cid, &unmarshalEntry{UnmarshalFn: unmarshalFn})
+		entry := &unmarshalEntry{UnmarshalFn: unmarshalFn}
+		_, exists := unmarshalFns.LoadOrStore(cid, entry)
 		if exists {
 			// the unmarshalFn has already been stored for the cid
 			// means there is ongoing fetch happening for the same cid
@@ -89,6 +91,7 @@ func fetch(
 		} else {
 			// cleanup are by the original requester and
 			// only after we are sure we got the block
+			registered[cid] = entry
 			defer unmarshalFns.Delete(cid)
 		}
 	}
@@ -103,6 +106,18 @@ func fetch(
 		// It's harmless in practice to do additional notifications in case of duplicates
 		if err := exchg.NotifyNewBlocks(ctx, bitswapBlk); err != nil {
 			log.Error("failed to notify the new Bitswap block: %s", err)
+		}
+
+		// The hasher normally has verified and populated the Block through the entry registered above.
+		// That is not guaranteed, though: a block that was decoded (and verified through the entry of an
+		// earlier fetch of the same CID) before we registered, or that a concurrent fetch of the same CID
+		// re-published with NotifyNewBlocks, reaches this session without the hasher ever having run on
+		// our entry. Such a block is verified and unmarshalled here, so that a nil error always means
+		// a Block verified against the given roots.
+		if entry, ok := registered[bitswapBlk.Cid()]; ok {
+			if err := entry.ensureVerified(bitswapBlk.RawData()); err != nil {
+				return fmt.Errorf("unmarshaling block: %w", err)
+			}
 		}
 
 		blk, ok := duplicates[bitswapBlk.Cid()]
@@ -171,6 +186,24 @@ var unmarshalFns sync.Map
 type unmarshalEntry struct {
 	sync.Mutex
 	UnmarshalFn
+	// verified reports whether UnmarshalFn has succeeded at least once,
+	// i.e. the Block behind it is verified and populated. Guarded by the Mutex.
+	verified bool
+}
+
+// ensureVerified verifies and unmarshals the given Bitswap block data with the entry's UnmarshalFn,
+// unless the hasher has already done so.
+func (e *unmarshalEntry) ensureVerified(data []byte) error {
+	e.Lock()
+	defer e.Unlock()
+	if e.verified {
+		return nil
+	}
+	if err := unmarshal(e.UnmarshalFn, data); err != nil {
+		return err
+	}
+	e.verified = true
+	return nil
 }
 
 // hasher implements hash.Hash to be registered as custom multihash
@@ -222,6 +255,7 @@ func (h *hasher) write(data []byte) error {
 	if err != nil {
 		return fmt.Errorf("verifying and unmarshalling container data: %w", err)
 	}
+	entry.verified = true
 
 	// set the id as resulting sum
 	// it's required for the sum to match the requested ID
